@@ -98,10 +98,14 @@ def run_suite(name: str, tier: str, seed: int, treehash: str, use_cache=True):
         # oracle-only stream (inputs outside the modelled domain, e.g. non-dyadic floats): no correspondence
         ev = {"evaluated": 0, "failing": [], "masks": {}, "errors": [], "shards": 0, "coq_s": 0.0}
     else:
-        terms = [suite.emit(cases[i], obs[i]) for i in keep]
+        # observations marked `no_model` lie outside the modelled domain (e.g. NaN arguments): property oracle only
+        mkeep = [i for i in keep if not obs[i].get("no_model")]
+        terms = [suite.emit(cases[i], obs[i]) for i in mkeep]
         ev = core.eval_cases(name, suite.coq_module, terms, extra_header=getattr(suite, "extra_header", ""))
-    failing = [keep[j] for j in ev["failing"]]
-    fmask = {keep[j]: m for j, m in ev["masks"].items()}
+    if suite.coq_module is None:
+        mkeep = keep
+    failing = [mkeep[j] for j in ev["failing"]]
+    fmask = {mkeep[j]: m for j, m in ev["masks"].items()}
     distinct = set()
     dist = Counter()
     for i in keep:
